@@ -24,15 +24,17 @@ func init() {
 type geLevel int // 0 none, 1 ≥, 2 >
 
 type monoEngine struct {
-	p        *Prog
-	clockF   *types.Var
-	headsF   *types.Var
-	maxLike  map[*ssa.Function]int // 0 unknown 1 yes 2 no
-	accum    map[*ssa.Function]int
-	why      []string
+	p       *Prog
+	clockF  *types.Var
+	headsF  *types.Var
+	maxLike map[*ssa.Function]int // 0 unknown 1 yes 2 no
+	accum   map[*ssa.Function]int
+	why     []string
 }
 
-func (me *monoEngine) note(format string, a ...interface{}) { me.why = append(me.why, fmt.Sprintf(format, a...)) }
+func (me *monoEngine) note(format string, a ...interface{}) {
+	me.why = append(me.why, fmt.Sprintf(format, a...))
+}
 
 // isMaxLike: f(x, y int) int with result ≥ x and result ≥ y on every return (proved by E3's summaries).
 func (me *monoEngine) isMaxLike(f *ssa.Function) bool {
